@@ -151,7 +151,7 @@ func dumpFunc(p *Prog, name string) {
 	for _, rp := range ff.RetPoints(vi) {
 		fmt.Printf(" return @%s outcome=%d\n", p.Pos(rp.Ret.Pos()), rp.Outcome)
 		for _, v := range rp.Vals {
-			fmt.Printf("   val  %s\n", clip(s.Of(v).String(), 600))
+			fmt.Printf("   val  %s\n", clip(s.Of(v).String(), dumpClip()))
 		}
 		if os.Getenv("DUMP_FACTS") != "" {
 			for _, a := range rp.Facts {
@@ -180,4 +180,11 @@ func dumpFunc(p *Prog, name string) {
 			}
 		}
 	}
+}
+
+func dumpClip() int {
+	if n, err := strconv.Atoi(os.Getenv("DUMP_CLIP")); err == nil {
+		return n
+	}
+	return 600
 }
